@@ -194,8 +194,22 @@ package bttest
 // inmem.go: ReadRows / SampleRowKeys
 // ---------------------------------------------------------------------------------------------
 
+// C03 "exactly the requested rows": every merged range is scanned exactly once, in order, by the scan that fits its
+// bounds, with exactly its bounds (ghost counter rrScans, incremented by ghost code after each scan call); nothing
+// else reads rows.
+//@ ghostvar rrScans int protocol
 //@ func (s *server) ReadRows
 //@   property C03
+//@   modifies ghost(rrScans)
+//@   callsite (Rows).Ascend ghost rrScans == rrScans + 1
+//@   callsite (Rows).AscendLessThan ghost rrScans == rrScans + 1
+//@   callsite (Rows).AscendGreaterOrEqual ghost rrScans == rrScans + 1
+//@   callsite (Rows).AscendRange ghost rrScans == rrScans + 1
+//@   callsite (Rows).Ascend requires len(sr.start) == 0 && len(sr.end) == 0
+//@   callsite (Rows).AscendLessThan requires len(sr.start) == 0 && len(sr.end) > 0 && arg1 == sr.end
+//@   callsite (Rows).AscendGreaterOrEqual requires len(sr.end) == 0 && len(sr.start) > 0 && arg1 == sr.start
+//@   callsite (Rows).AscendRange requires len(sr.start) > 0 && len(sr.end) > 0 && arg1 == sr.start && arg2 == sr.end
+//@   loop 1 invariant rrScans == old(rrScans) + idx1 + 1
 //@   logical x []byte
 //@   requires req != nil
 //@   requires stream != nil
